@@ -17,88 +17,140 @@ from ..util import text, macro_classes, tex_name
 def check(chk):
     m = chk.model
     r91(chk, m)
-    r92(chk, m)
     r93(chk, m)
     r94(chk, m)
     r95(chk, m)
+    from . import shared
+    shared.paux_rules(chk, m, 'R9.6')
     chk.decline('identity of the resolved object for all documents and orders (runtime); decided is the protocol of the '
                 'label/reference tables')
 
 
+class LabelHooks(A.Hooks):
+    """The context on a heap: context['Macro']() builds a placeholder node of class Macro."""
+    def __init__(self, model):
+        self.model = model
+        self.cls = model.cls('plasTeX.Context', 'Context')
+        self.Macro = model.cls('plasTeX', 'Macro')
+
+    def keep(self, ev):
+        return False
+
+    def call(self, interp, node, fname, args, kwargs, state):
+        if isinstance(node.func, ast.Subscript) and text(node.func.value) == 'self' and not args:
+            k = state.env.get('__new', 0)
+            state.env['__new'] = k + 1
+            return A.Obj('placeholder%d' % k, {'__eqkey': 'placeholder', '_dom_childNodes': []}, cls=self.Macro)
+        if fname.startswith('log.') or fname.startswith('macrolog.'):
+            return A.NONE
+        return None
+
+
+def label_heap(m):
+    Context = m.cls('plasTeX.Context', 'Context')
+    Macro = m.cls('plasTeX', 'Macro')
+    mk = lambda label, eq=None: A.Obj(label, {'__eqkey': eq or label, '_dom_childNodes': [], 'idref': {}}, cls=Macro)
+    N, CUR = mk('N'), mk('CUR')
+    # referrers that compare equal (DOM nodes compare by structure: two \ref{x} nodes are equal)
+    o1, o2, o3 = mk('o1', 'ref-node'), mk('o2', 'ref-node'), mk('o3', 'other-ref')
+    ctx = A.Obj('context', {'labels': {}, 'persistentLabels': {}, 'refs': {}, 'currentlabel': CUR}, cls=Context)
+    return {'self': ctx, '__ctx': ctx, '__N': N, '__CUR': CUR, '__o1': o1, '__o2': o2, '__o3': o3}
+
+
+def run_steps(m, steps):
+    """Run a sequence of Context.label / Context.ref calls on one heap; returns the set of final descriptions."""
+    Context = m.cls('plasTeX.Context', 'Context')
+    states = [label_heap(m)]
+    imprecise = []
+    for meth, args in steps:
+        fn = m.find_method(Context, meth)
+        need(fn is not None, 'Context.%s not found' % meth)
+        nxt = []
+        for env in states:
+            h = LabelHooks(m)
+            it = A.Interp(model=m, scope=fn, hooks=h, max_iter=8, exc_edges=False, inline=8, heap=True, precise_exc=True,
+                          max_states=5000)
+            e = dict(env)
+            for k, v in args.items():
+                e[k] = env[v] if isinstance(v, str) and v.startswith('__') else v
+            for a in fn.node.args.args[1:]:
+                e.setdefault(a.arg, None)
+            for kind, s2, v in it.run_function(fn, env=e):
+                if kind == 'return':
+                    nxt.append({k: val for k, val in s2.env.items() if k == 'self' or k.startswith('__')})
+                else:
+                    nxt.append({'__raised': '%s %s' % (kind, v)})
+            imprecise += it.imprecise
+        states = nxt
+    need(not imprecise, 'label protocol: %s' % imprecise[:2])
+    return states
+
+
+def describe_labels(env):
+    if '__raised' in env:
+        return ('raised', env['__raised'])
+    ctx = env['__ctx']
+    lab = lambda x: x.label if isinstance(x, A.Obj) else repr(x)
+    nid = lambda x: (x.attrs.get('@id', x.attrs.get('id')) if isinstance(x, A.Obj) else None)
+    tables = tuple((t, tuple(sorted((k, lab(v)) for k, v in ctx.attrs[t].items()))) if isinstance(ctx.attrs.get(t), dict) else (t, 'TOP')
+                   for t in ('labels', 'persistentLabels'))
+    refs = ctx.attrs.get('refs')
+    pend = tuple(sorted((k, tuple(lab(o) for o in v)) for k, v in refs.items())) if isinstance(refs, dict) else 'TOP'
+    idrefs = []
+    for o in ('__o1', '__o2', '__o3'):
+        d = env[o].attrs.get('idref')
+        if isinstance(d, dict):
+            for k, v in sorted(d.items()):
+                tgt = lab(v)
+                if isinstance(v, A.Obj) and v.label.startswith('placeholder'):
+                    tgt = 'placeholder(id=%r)' % (nid(v),)
+                idrefs.append((env[o].label, k, tgt))
+    return (tables, ('pending', pend), tuple(idrefs), ('N.id', nid(env['__N'])), ('CUR.id', nid(env['__CUR'])))
+
+
 def r91(chk, m):
-    R = chk.rule('R9.1', 'Context.label: a label with a target is stored in labels and persistentLabels and becomes the node id; the '
-                 'back-patch loop visits every pending referrer (no break/return, the list is not modified while iterated), replaces '
-                 'exactly the idref entries whose placeholder carries this label, and removes the pending list afterwards', 5)
-    fn = m.func('plasTeX.Context', 'Context.label')
-    chk.analysed(fn)
-    src = text(fn.node)
-    store = [n for n in M.walk_no_nested(fn.node) if isinstance(n, ast.Assign) and any(text(t) == 'self.labels[label]' for t in n.targets)]
-    ok = len(store) == 1 and any(text(t) == 'self.persistentLabels[label]' for t in store[0].targets) and text(store[0].value) == 'node'
-    from .c06 import guard_chain
-    g = guard_chain(fn.node, store[0]) if store else None
-    idset = [n for n in M.walk_no_nested(fn.node) if isinstance(n, ast.Assign) and text(n.targets[0]) == 'node.id' and text(n.value) == 'label']
-    chk.verdict(R, 'label stored in both tables and as node id', ok and g == ['node is not None'] and len(idset) == 1 and guard_chain(fn.node, idset[0]) == g,
-                'Context.label must do persistentLabels[label] = labels[label] = node and node.id = label under `node is not None` (guards %s)' % g, chk.where(fn))
-    dflt = [n for n in M.walk_no_nested(fn.node) if isinstance(n, ast.If) and text(n.test) == 'node is None']
-    ok = len(dflt) == 1 and text(dflt[0].body[0]) == 'node = self.currentlabel'
-    chk.verdict(R, 'label attaches to the current labelled object', ok, 'without an explicit node the label must attach to context.currentlabel', chk.where(fn))
-    from ..util import aliases_of
-    al = aliases_of(fn, ['self.refs[label]'])
-    outer = [n for n in M.walk_no_nested(fn.node) if isinstance(n, ast.For) and
-             ('self.refs[label]' in text(n.iter) or text(n.iter) in al or any(re.search(r'\b%s\b' % re.escape(a), text(n.iter)) for a in al if a.isidentifier()))]
-    need(len(outer) == 1, 'Context.label: back-patch loop not found')
-    loop = outer[0]
-    jumps = [n for n in ast.walk(loop) if isinstance(n, (ast.Break, ast.Return))]
-    muts = [text(c) for c in ast.walk(loop) if isinstance(c, ast.Call) and isinstance(c.func, ast.Attribute) and c.func.attr in E.MUTATORS
-            and ('self.refs' in text(c.func.value) or text(c.func.value) in al)]
-    dels = [text(n) for n in ast.walk(loop) if isinstance(n, ast.Delete) and ('self.refs' in text(n) or any(text(t).split('[')[0] in al for t in n.targets))]
-    copied = re.fullmatch(r'list\(self\.refs\[label\]\)|self\.refs\[label\]\[:\]', text(loop.iter).replace(' ', '')) is not None
-    chk.verdict(R, 'back-patch loop visits every pending referrer', not jumps and (copied or not (muts or dels)),
-                'the loop over the pending referrers of a label %s%s: with several forward references to one label some keep '
-                'their placeholder' % ('leaves early (break/return); ' if jumps else '',
-                                       'modifies the list it iterates over (%s)' % (muts + dels) if (muts or dels) and not copied else ''),
-                chk.where(fn, loop))
-    # inner replacement: compare placeholder id with label, assign the labelled node
-    inner = [n for n in ast.walk(loop) if isinstance(n, ast.For) and n is not loop]
-    ok = False
-    if len(inner) == 1:
-        body = text(inner[0])
-        ok = 'value.id != label' in body and 'obj.idref[key] = self.labels[label]' in body and 'list(obj.idref.items())' in text(inner[0].iter)
-    chk.verdict(R, 'back-patch replaces exactly the entries for this label', ok,
-                'the inner loop must replace obj.idref[key] by labels[label] exactly when the placeholder id equals the label', chk.where(fn))
-    after = [text(n) for n in M.walk_no_nested(fn.node) if isinstance(n, ast.Delete)]
-    chk.verdict(R, 'pending list removed after patching', 'del self.refs[label]' in after and loop.end_lineno < max(n.lineno for n in M.walk_no_nested(fn.node) if isinstance(n, ast.Delete)),
-                'the pending list of the label must be deleted after the loop (found %s)' % after, chk.where(fn))
-
-
-def r92(chk, m):
-    R = chk.rule('R9.2', 'Context.ref: a known label (membership in the label table, not truth of the node) resolves to the labelled '
-                 'node itself; an unknown one queues the referrer and installs a placeholder whose id is the label; ref never '
-                 'writes the label table', 4)
-    fn = m.func('plasTeX.Context', 'Context.ref')
-    chk.analysed(fn)
-    ifs = [n for n in fn.node.body if isinstance(n, ast.If)]
-    known = [n for n in ifs if 'self.labels' in text(n.test)]
-    ok = False
-    if len(known) == 1:
-        t = known[0].test
-        member = isinstance(t, ast.Compare) and isinstance(t.ops[0], ast.In) and text(t.left) == 'label' and \
-            text(t.comparators[0]).replace(' ', '') in ('list(self.labels.keys())', 'self.labels', 'self.labels.keys()')
-        body = [text(s) for s in known[0].body]
-        ok = member and body == ['obj.idref[name] = self.labels[label]', 'return']
-    truthy = [text(n.test) for n in M.walk_no_nested(fn.node) if isinstance(n, ast.If) and not isinstance(n.test, ast.Compare)
-              and not (isinstance(n.test, ast.UnaryOp) and text(n.test) == 'not label')]
-    chk.verdict(R, 'known label resolves by membership', ok and not truthy,
-                'Context.ref decides "label exists" by %s: DOM nodes without children are falsy (their length is the number of '
-                'children), so a reference to such a labelled object would stay a placeholder'
-                % (truthy or [text(n.test) for n in known]), chk.where(fn))
-    src = text(fn.node)
-    q = 'self.refs[label].append(obj)' in src and re.search(r"if label not in (list\()?self\.refs(\.keys\(\)\))?: self\.refs\[label\] = \[\]", src.replace('\n', ' ')) is not None
-    chk.verdict(R, 'unknown label queues the referrer', q, 'an unresolved reference must be appended to refs[label] (created on first use)', chk.where(fn))
-    ph = "node = self['Macro']()" in src and 'node.id = label' in src and 'obj.idref[name] = node' in src
-    chk.verdict(R, 'placeholder carries the label as id', ph, 'the placeholder stored in obj.idref[name] must have id == label (label() compares it)', chk.where(fn))
-    writes = [text(n) for n in M.walk_no_nested(fn.node) if isinstance(n, ast.Assign) and any('self.labels' in text(t) or 'persistentLabels' in text(t) for t in n.targets)]
-    chk.verdict(R, 'ref never writes the label table', not writes, 'Context.ref stores into the label table: %s (dangling references would resolve)' % writes, chk.where(fn))
+    R = chk.rule('R9.1', 'the label protocol as sequences of Context.label / Context.ref calls on a small heap (abstract '
+                 'interpretation): a label is stored in both tables and becomes the id of its node (the current labelled object '
+                 'unless a node is given); a reference to a known label is bound to that very node; a forward reference gets a '
+                 'placeholder carrying the label and is bound to the node when the label arrives - every pending referrer, also '
+                 'referrers that compare equal, and only the entries of that label; the pending entry is removed afterwards', 7)
+    Context = m.cls('plasTeX.Context', 'Context')
+    for nm in ('label', 'ref'):
+        chk.analysed(m.find_method(Context, nm))
+    T = lambda **kv: tuple(sorted(kv.items()))
+    scen = [
+        ('label attaches to the current labelled object', [('label', {'label': ' sec a '})],
+         ((('labels', (('sec a', 'CUR'),)), ('persistentLabels', (('sec a', 'CUR'),))), ('pending', ()), (), ('N.id', None), ('CUR.id', 'sec a'))),
+        ('label with an explicit node', [('label', {'label': 'x', 'node': '__N'})],
+         ((('labels', (('x', 'N'),)), ('persistentLabels', (('x', 'N'),))), ('pending', ()), (), ('N.id', 'x'), ('CUR.id', None))),
+        ('empty label is ignored', [('label', {'label': '  ', 'node': '__N'})],
+         ((('labels', ()), ('persistentLabels', ())), ('pending', ()), (), ('N.id', None), ('CUR.id', None))),
+        ('backward reference binds to the labelled node', [('label', {'label': 'x', 'node': '__N'}), ('ref', {'obj': '__o1', 'name': 'label', 'label': ' x '})],
+         ((('labels', (('x', 'N'),)), ('persistentLabels', (('x', 'N'),))), ('pending', ()), (('o1', 'label', 'N'),), ('N.id', 'x'), ('CUR.id', None))),
+        ('forward references are queued with placeholders', [('ref', {'obj': '__o1', 'name': 'label', 'label': 'x'}), ('ref', {'obj': '__o2', 'name': 'label', 'label': 'x'}),
+                                                             ('ref', {'obj': '__o3', 'name': 'label', 'label': 'y'})],
+         ((('labels', ()), ('persistentLabels', ())), ('pending', (('x', ('o1', 'o2')), ('y', ('o3',)))),
+          (('o1', 'label', "placeholder(id='x')"), ('o2', 'label', "placeholder(id='x')"), ('o3', 'label', "placeholder(id='y')")), ('N.id', None), ('CUR.id', None))),
+        ('a label resolves every pending referrer of that label and no other',
+         [('ref', {'obj': '__o1', 'name': 'label', 'label': 'x'}), ('ref', {'obj': '__o2', 'name': 'label', 'label': 'x'}),
+          ('ref', {'obj': '__o3', 'name': 'label', 'label': 'y'}), ('ref', {'obj': '__o1', 'name': 'other', 'label': 'y'}), ('label', {'label': 'x', 'node': '__N'})],
+         ((('labels', (('x', 'N'),)), ('persistentLabels', (('x', 'N'),))), ('pending', (('y', ('o3', 'o1')),)),
+          (('o1', 'label', 'N'), ('o1', 'other', "placeholder(id='y')"), ('o2', 'label', 'N'), ('o3', 'label', "placeholder(id='y')")), ('N.id', 'x'), ('CUR.id', None))),
+        ('a dangling reference stays a placeholder and is not labelled', [('ref', {'obj': '__o1', 'name': 'label', 'label': 'nowhere'}), ('label', {'label': 'x', 'node': '__N'})],
+         ((('labels', (('x', 'N'),)), ('persistentLabels', (('x', 'N'),))), ('pending', (('nowhere', ('o1',)),)),
+          (('o1', 'label', "placeholder(id='nowhere')"),), ('N.id', 'x'), ('CUR.id', None))),
+    ]
+    for label, steps, want in scen:
+        try:
+            finals = run_steps(m, steps)
+        except AnalysisError as e:
+            chk.undecided(R, 'protocol: %s' % label, str(e), chk.where(m.find_method(Context, steps[-1][0])))
+            continue
+        chk.paths += len(finals)
+        got = {repr(describe_labels(f)) for f in finals}
+        chk.decide(R, 'protocol: %s' % label, got, {repr(want)},
+                   'after %s the tables are %s; expected %s' % (' ; '.join('%s(%s)' % (mn, ', '.join('%s=%s' % kv for kv in a.items())) for mn, a in steps),
+                                                              sorted(got), want), chk.where(m.find_method(Context, steps[-1][0])))
 
 
 def r93(chk, m):
@@ -117,9 +169,32 @@ def r93(chk, m):
     cr = m.func('plasTeX.TeX', 'TeX.castRef')
     chk.analysed(cl)
     chk.analysed(cr)
-    ok = 'self.ownerDocument.context.label(label)' in text(cl.node)
-    ok2 = "self.ownerDocument.context.ref(kwargs['parentNode'], kwargs['name'], ref)" in text(cr.node)
-    chk.verdict(R, 'castLabel/castRef call the context', ok and ok2, 'castLabel must call context.label(label); castRef context.ref(parentNode, name, ref)', chk.where(cr))
+    TeXc = m.cls('plasTeX.TeX', 'TeX')
+
+    class CH(A.Hooks):
+        cls = TeXc
+
+        def call(self, interp, node, fname, args, kwargs, state):
+            if fname == 'self.castString':
+                return 'LBL'
+            if fname.endswith('context.label') or fname.endswith('context.ref'):
+                state.env['__ctxcalls'] = state.env.get('__ctxcalls', ()) + ((fname.rsplit('.', 1)[1], tuple(a if isinstance(a, str) else getattr(a, 'label', repr(a)) for a in args)),)
+                return A.NONE
+            return None
+
+        def keep(self, ev):
+            return False
+    P = A.Sym('PARENT', truthy=True)
+    res = {}
+    for f, want in ((cl, (('label', ('LBL',)),)), (cr, (('ref', ('PARENT', 'argname', 'LBL')),))):
+        hk = CH()
+        hk.should_inline = A.private_only
+        it = A.Interp(model=m, scope=f, hooks=hk, max_iter=2, exc_edges=False, inline=2)
+        outs = it.run_function(f, env={'tokens': A.Sym('tokens'), 'kwargs': {'parentNode': P, 'name': 'argname'}})
+        got = {(kind, s2.env.get('__ctxcalls', ()), v if isinstance(v, str) else 'TOP') for kind, s2, v in outs}
+        chk.decide(R, '%s calls the context' % f.name, {repr(g) for g in got}, {repr(('return', want, 'LBL'))},
+                   '%s gives (outcome, context calls, result) = %s; expected the call %s with the cast string, which is also returned'
+                   % (f.name, sorted(got, key=repr), want), chk.where(f))
     cx = 'plasTeX.Base.LaTeX.Crossref'
     for cname, want in (('label', 'label:id'), ('ref', '* label:idref'), ('pageref', '* label:idref')):
         c = m.cls(cx, cname)
@@ -137,9 +212,25 @@ def r94(chk, m):
     allowed_labels = {'plasTeX.Context.Context.label', 'plasTeX.Context.Context.restore', 'plasTeX.Context.Context.__init__'}
     allowed_refs = {'plasTeX.Context.Context.ref', 'plasTeX.Context.Context.label', 'plasTeX.Context.Context.__init__'}
     n_sites = 0
+    from .c04 import resolved_calls
+    callers = {}
+    for f in E.all_functions(m):
+        if 'simpletal' in f.fullname:
+            continue
+        for c, cal in resolved_calls(m, f):
+            callers.setdefault(cal.fullname, set()).add(f)
+
+    def owners_of(fn, seen=()):
+        if not (fn.name.startswith('_') and not fn.name.startswith('__')) or not callers.get(fn.fullname) or fn.fullname in seen:
+            return {fn.fullname}
+        out = set()
+        for c in callers[fn.fullname]:
+            out |= owners_of(c, seen + (fn.fullname,))
+        return out
     for fn in E.all_functions(m):
         if 'simpletal' in fn.fullname:
             continue
+        own = owners_of(fn)
         for n in M.walk_no_nested(fn.node):
             tgts = []
             if isinstance(n, ast.Assign):
@@ -153,19 +244,19 @@ def r94(chk, m):
                 if re.search(r'(^|\.)currentlabel$', tt):
                     n_sites += 1
                     chk.analysed(fn)
-                    chk.verdict(R, '%s sets currentlabel' % fn.fullname, fn.fullname in allowed_cur,
+                    chk.verdict(R, '%s sets currentlabel' % fn.fullname, own <= allowed_cur,
                                 '%s assigns the current labelled object: a following \\label would attach to the wrong node' % fn.fullname, chk.where(fn, n))
                 mm = re.search(r'(^|\.)(labels|persistentLabels)(\[|$)', tt)
                 if mm and 'context' in tt or re.match(r'self\.(labels|persistentLabels)(\[|$)', tt) and fn.cls is not None and fn.cls.name == 'Context':
                     n_sites += 1
                     chk.analysed(fn)
-                    ok = fn.fullname in allowed_labels or fn.module.name == 'plasTeX.Packages.xr'
+                    ok = own <= allowed_labels or fn.module.name == 'plasTeX.Packages.xr'
                     chk.verdict(R, '%s writes the label table (%s)' % (fn.fullname, tt.split('[')[0]), ok,
                                 '%s stores into the label table outside the label protocol' % fn.fullname, chk.where(fn, n))
                 if re.match(r'self\.refs(\[|$)', tt) and fn.cls is not None and fn.cls.name == 'Context' or re.search(r'context\.refs(\[|$)', tt):
                     n_sites += 1
                     chk.analysed(fn)
-                    chk.verdict(R, '%s writes the pending table' % fn.fullname, fn.fullname in allowed_refs,
+                    chk.verdict(R, '%s writes the pending table' % fn.fullname, own <= allowed_refs,
                                 '%s stores into the pending-reference table outside Context.ref/label' % fn.fullname, chk.where(fn, n))
     need(n_sites >= 8, 'only %d writer sites of the label protocol found' % n_sites)
     chk.call_sites += n_sites
